@@ -44,7 +44,7 @@ func genHistory(t *rapid.T) (*history, *model, int) {
 	h := &history{Cfg: genConfig(t), Specs: genSpecs(t)}
 	m := newModel(h.Cfg, h.Specs)
 	excluded := 0
-	n := rapid.IntRange(12, 40).Draw(t, "nsteps")
+	n := rapid.IntRange(15, 40).Draw(t, "nsteps")
 	for k := 0; k < n; k++ {
 		s, ok := genStep(t, m, &excluded)
 		if !ok {
